@@ -193,3 +193,14 @@ M("c04-aug-image-only", "C04", "BottomUpDataset: geometric aug result keypoints 
 M("c04-pad-stride-ceil", "C04", "find_padding_for_stride pads a full stride when divisible", RS, "    pad_height = (max_stride - (image_height % max_stride)) % max_stride\n", "    pad_height = (max_stride - (image_height % max_stride)) % (max_stride + (1 if max_stride == 32 else 0))\n")
 M("c11-revert-clone", "C11", "revert generate_centroids clone", ICN, "centroids = points[..., anchor_ind, :].clone()", "centroids = points[..., anchor_ind, :]")
 M("c04-offsets-dropped", "C04", "make_centered_bboxes corner offsets dropped", IC, "    return corners + offset\n", "    return corners\n")
+
+PRV = "sleap_nn/data/providers.py"
+M("c11-empty-filter", "C11", "centered: empty-instance filter dropped", CDS, "                if not inst.is_empty:  # filter all NaN instances.\n                    instance_idx_list.append((lf_idx, inst_idx))", "                if True:  # filter all NaN instances.\n                    instance_idx_list.append((lf_idx, inst_idx))")
+M("c11-inplace-confmap-scale", "C11", "SingleInstanceDataset scales cached instances in place before maps", CDS, "        confidence_maps = generate_confmaps(\n            sample[\"instances\"],\n            img_hw=img_hw,\n            sigma=self.confmap_head_config.sigma,\n            output_stride=self.confmap_head_config.output_stride,\n        )\n\n        sample[\"confidence_maps\"] = confidence_maps\n\n        return sample\n\n\nclass _RepeatSampler",
+  "        sample[\"instances\"] += 0.25\n        confidence_maps = generate_confmaps(\n            sample[\"instances\"],\n            img_hw=img_hw,\n            sigma=self.confmap_head_config.sigma,\n            output_stride=self.confmap_head_config.output_stride,\n        )\n\n        sample[\"confidence_maps\"] = confidence_maps\n\n        return sample\n\n\nclass _RepeatSampler")
+M("c11-pad-dropped", "C11", "process_lf pads with zeros instead of NaN", PRV, "        nans = torch.full(\n            (1, np.abs(max_instances - num_instances), nodes, 2), torch.nan\n        )\n        instances = torch.cat(\n            [instances, nans], dim=1\n        )  # (n_samples, max_instances, num_nodes, 2)\n\n    ex = {", "        nans = torch.full(\n            (1, np.abs(max_instances - num_instances), nodes, 2), 0.0\n        )\n        instances = torch.cat(\n            [instances, nans], dim=1\n        )  # (n_samples, max_instances, num_nodes, 2)\n\n    ex = {")
+M("c11-crop-size-inplace", "C11", "generate_confmaps writes NaN->0 into its input", CM, "    if instance.ndim != 3:\n        instance = instance.view(instance.shape[0], -1, 2)", "    instance.nan_to_num_(nan=-1000.0)\n    if instance.ndim != 3:\n        instance = instance.view(instance.shape[0], -1, 2)")
+M("c11-nan-to-zero", "C11", "process_lf replaces NaN keypoints by 0", PRV, "    instances = torch.from_numpy(instances.astype(\"float32\"))\n\n    num_instances, nodes = instances.shape[1:3]\n    img_height", "    instances = torch.nan_to_num(torch.from_numpy(instances.astype(\"float32\")), nan=0.0)\n\n    num_instances, nodes = instances.shape[1:3]\n    img_height")
+MUTANTS.append({"id": "c11-user-filter-ignored-both", "property": "C11", "desc": "user-instance filter disabled in process_lf and in BaseDataset._get_lf_idx_list (two sites)", "edits": [
+    {"file": PRV, "old": "    if user_instances_only:\n        if lf.user_instances is not None and len(lf.user_instances) > 0:\n            lf.instances = lf.user_instances\n\n    image = np.transpose", "new": "    if False:\n        if lf.user_instances is not None and len(lf.user_instances) > 0:\n            lf.instances = lf.user_instances\n\n    image = np.transpose", "count": 1},
+    {"file": CDS, "old": "            if self.data_config.user_instances_only:\n                if lf.user_instances is not None and len(lf.user_instances) > 0:\n                    lf.instances = lf.user_instances\n            is_empty = True", "new": "            if False:\n                if lf.user_instances is not None and len(lf.user_instances) > 0:\n                    lf.instances = lf.user_instances\n            is_empty = True", "count": 1}]})
